@@ -161,7 +161,8 @@ def run_tlc(module, cfg, files=(), workers="auto", simulate=None, depth=None, se
                 shutil.copy(f[0], os.path.join(scratch, f[1]))
             else:
                 shutil.copy(f, scratch)
-        cmd = ["java", "-XX:+UseParallelGC", "-Xss512m"]
+        os.makedirs(os.path.join(scratch, "jtmp"), exist_ok=True)     # TLC leaves a tlc-* directory per run in java.io.tmpdir
+        cmd = ["java", "-XX:+UseParallelGC", "-Xss512m", "-Djava.io.tmpdir=" + os.path.join(scratch, "jtmp")]
         if heap:
             cmd.append("-Xmx" + heap)
         if dfs:
